@@ -394,6 +394,14 @@ func (fc *FnCtx) doRecv(x *ssa.UnOp, ch Val) {
 
 // chanClose: closing a channel that carries an invariant requires the zero value to satisfy it
 // (receivers assume the invariant of every received value, including the zero value of a closed channel).
+const chanClosedName = "CH|closed"
+
+var chanClosedSort = arraySort(SortRef, SortBool)
+
+func (fc *FnCtx) chanOnce(class string) bool {
+	return fc.c != nil && fc.c.ChanOnce[class]
+}
+
 func (fc *FnCtx) chanClose(ch Val, pos token.Pos) {
 	call, ok := fc.curInstr.(ssa.CallInstruction)
 	if !ok || len(call.Common().Args) == 0 {
@@ -401,6 +409,13 @@ func (fc *FnCtx) chanClose(ch Val, pos token.Pos) {
 	}
 	cv := call.Common().Args[0]
 	inv, class := fc.chanInvFor(cv)
+	if fc.chanOnce(class) {
+		// close of a closed channel panics
+		arr := fc.cur.get(chanClosedName, chanClosedSort)
+		fc.oblige("chan-close", "twice!"+class, not(app("select", arr, ch.L[0])), pos, "close of a channel that may be closed already")
+		fc.cur = fc.cur.derive()
+		fc.cur.set(chanClosedName, chanClosedSort, app("store", arr, ch.L[0], "true"))
+	}
 	if inv == nil {
 		return
 	}
@@ -456,6 +471,16 @@ func (fc *FnCtx) doSelect(x *ssa.Select) {
 		}
 		out.L = append(out.L, v.L...)
 		ri++
+	}
+	// a non-blocking select that takes its default branch found no case ready: a channel of a closeonce class it
+	// tried to receive from is not closed (a closed channel is always ready), this function being its only closer
+	if !x.Blocking {
+		for _, s := range x.States {
+			if s.Dir == types.RecvOnly && fc.chanOnce(fc.chanClass(s.Chan)) {
+				arr := fc.cur.get(chanClosedName, chanClosedSort)
+				fc.cur.assume(implies(eq(idx, bvLit(^uint64(0), 64)), not(app("select", arr, fc.operand(s.Chan).L[0]))))
+			}
+		}
 	}
 	fc.setVal(x, out)
 	// anchor "select": argK is the channel of case K, ret0 the index of the case taken (-1: default), ret1 recvOk
